@@ -148,7 +148,8 @@ fn stats_for(generation: usize, estimate: f64, speed: u8) -> HeuristicStatistics
         speed: match speed {
             0 => HeuristicSpeed::Unknown,
             1 => HeuristicSpeed::Moderate { average: 100., median: Some(10) },
-            _ => HeuristicSpeed::Slow { ratio: 0.5, average: 1., median: Some(1000) },
+            // slow speed with different ratios (small ratios shrink the selection size)
+            k => HeuristicSpeed::Slow { ratio: [0.5, 0.1, 0.25, 1.0][(k as usize + generation) % 4], average: 1., median: Some(1000) },
         },
         improvement_all_ratio: 0.1,
         improvement_1000_ratio: 0.05 + (generation % 7) as f64 * 0.05,
